@@ -45,3 +45,54 @@ pub fn parse_dir<P: AsRef<std::path::Path>>(
 
     Ok(result)
 }
+
+/// verification hooks, compiled only with `--cfg gosyn_verif`
+#[cfg(gosyn_verif)]
+pub mod verif {
+    use crate::scanner::Scanner;
+    use crate::token::Token;
+
+    /// result of running the crate's scanner to the end of input
+    pub struct Scanned {
+        pub tokens: Vec<(usize, Token)>,
+        pub error: Option<anyhow::Error>,
+        pub lines: Vec<usize>,
+        pub end: usize,
+    }
+
+    /// run the private scanner until EOF or the first error
+    pub fn tokens(source: &str) -> Scanned {
+        let mut scan = Scanner::from(source);
+        let mut tokens = vec![];
+        let mut error = None;
+        loop {
+            match scan.next_token() {
+                Ok(Some(pos_tok)) => tokens.push(pos_tok),
+                Ok(None) => break,
+                Err(err) => {
+                    error = Some(err);
+                    break;
+                }
+            }
+        }
+
+        Scanned {
+            tokens,
+            error,
+            lines: scan.verif_lines(),
+            end: scan.position(),
+        }
+    }
+
+    /// the scanner's line/column lookup over a given line table
+    pub fn line_info(source: &str, pos: usize) -> (usize, usize) {
+        let mut scan = Scanner::from(source);
+        while let Ok(Some(..)) = scan.next_token() {}
+        scan.line_info(pos)
+    }
+
+    /// bit mask of the scanner's private character predicates
+    pub fn char_class(c: char) -> u32 {
+        crate::scanner::verif_char_class(c)
+    }
+}
